@@ -31,4 +31,6 @@ for d in sorted((ROOT / "seeded").iterdir()):
             caught.append(f"{p}: rc={r['rc']} (missed)")
     summ = str(j.get("summary", "")).replace("|", "/").replace("\n", " ")[:260]
     needs = str(j.get("needs", "")).replace("|", "/").replace("\n", " ")[:220]
+    if j.get("judged"):
+        caught = [f"not demanded: {j['judged']}"]
     print(f"| {d.name} | {j.get('property')} | {summ} | {needs} | {'; '.join(caught) or 'not run yet'} |")
